@@ -60,7 +60,7 @@ def _load():
 
 @prop("C09",
       technique="static: Pratt-table extraction from typed HIR vs documented order; grammar/table/mapper three-way set agreement; PEG structure lints on pest_meta AST; positional data-flow of operands",
-      explanation="Decides the structural clauses of C09: (T-PRATT) the operator table extracted from the PrattParser::new().op(..) chain equals the documented levels and associativities; (S-3WAY) grammar binary_op/unary_op alternatives = Pratt-table rules = rules handled by map_infix/map_prefix, with a name-preserving Rule->BinOp/UnOp mapping; (G-*) operator spellings and aliases live in the same grammar rule, alphabetic operators and keywords are atomic with an identifier-boundary look-ahead, no ordered-choice alternative shadows a later one, implicit_mul is a leaf tried before parenthesis/primitive, exp has the token shape the Pratt loop expects; (H-IMPLICIT) implicit multiplication folds left with Mul only; (H-INTOEXP) each operator is lowered to the same-named Exp form with lhs/rhs in place. NOT decided: pest's PEG/Pratt engine, numeric evaluation of operators.",
+      explanation="Decides the structural clauses of C09: (T-PRATT) the operator table extracted from the PrattParser::new().op(..) chain equals the documented levels and associativities; (S-3WAY) grammar binary_op/unary_op alternatives = Pratt-table rules = rules handled by map_infix/map_prefix, with a name-preserving Rule->BinOp/UnOp mapping; (G-*) operator spellings and aliases live in the same grammar rule, alphabetic operators and keywords are atomic with an identifier-boundary look-ahead, no ordered-choice alternative shadows a later one, implicit_mul is a leaf tried before parenthesis/primitive, exp has the token shape the Pratt loop expects; (H-IMPLICIT) implicit multiplication folds left with Mul only; (H-INTOEXP) each operator is lowered to the same-named Exp form with lhs/rhs in place; (G-TAG) the converters fetch the parts of a pair by node tag: for each of the 37 (rule, tag) declarations, either no pair that can precede the intended one in document order (an earlier sibling element, or any sibling when the element may be absent or may match without producing a pair) can derive a nested pair with the same tag, or every converter that reads that tag for that rule searches the direct children only -- pest's find_first_tagged searches nested pairs first-come; every group of tag look-ups on one receiver must be the direct tag set of some grammar rule. NOT decided: pest's PEG/Pratt engine, numeric evaluation of operators.",
       assumptions=["pest 2.9 Pratt semantics as read from its source (expr loops while rbp < lbp; Left rhs rbp=prec, Right rbp=prec-1)"])
 def c09(F, R, tier):
     import c09 as mod
